@@ -245,6 +245,44 @@ func c02destructMatrix() []*Program {
 	return out
 }
 
+// c02staleSlotMatrix: a declaration without initial value that follows a closed block re-uses that block's local slots;
+// the new variable must read as undefined, and writing it must not reach a variable of the dead block that a closure holds.
+func c02staleSlotMatrix() []*Program {
+	blocks := []string{
+		"for i := 0; i < n; i++ {\n}",
+		"for i := 0; i < n; i++ {\n  t := i * 2\n  L(0, t)\n}",
+		"if n >= 0 {\n  a := 1\n  b := 2\n  L(0, a + b)\n}",
+		"if true {\n  a := 1\n  hold = func() { a++; return a }\n}",
+		"for i := 0; i < 2; i++ {\n  hold = func() { return i }\n}",
+		"try {\n  q := [n]\n  throw q\n} catch e {\n  L(0, e)\n}",
+		"for k, v in [5, 6] {\n  L(0, k, v)\n}",
+		"if true {\n  if true {\n    deep := 9\n    L(0, deep)\n  }\n  mid := 8\n  hold = func() { return mid }\n}",
+		"for blk := 4; blk < 5; blk++ {\n  hold = func() { blk += 1; return blk }\n}",
+	}
+	decls := []struct{ text, names string }{
+		{"var x", "x"}, {"var (x, y, z)", "x, y, z"}, {"var x = undefined", "x"}, {"x := undefined", "x"}, {"var (x = undefined, y)", "x, y"}, {"const c0 = 1\nvar x", "x"},
+	}
+	var out []*Program
+	for _, b := range blocks {
+		for _, d := range decls {
+			for _, wrap := range []string{"func", "func-nested", "main"} {
+				body := "hold := undefined\n" + b + "\n" + d.text + "\nL(1, " + d.names + ")\nx = 10\nL(2, " + d.names + ", hold == undefined ? \"none\" : hold())\n"
+				var src string
+				switch wrap {
+				case "func":
+					src = "global L\nf := func(n) {\n" + body + "return [x, hold == undefined ? 0 : hold()]\n}\nreturn [f(3), f(0)]\n"
+				case "func-nested":
+					src = "global L\nouter := func(n) {\n  return func() {\n" + body + "return x\n  }\n}\nreturn [outer(2)(), outer(0)()]\n"
+				default:
+					src = "global L\nn := 2\n" + body + "return x\n"
+				}
+				out = append(out, &Program{Src: src, Tags: []string{"stale-slot-matrix"}})
+			}
+		}
+	}
+	return out
+}
+
 func (m c02) Run(c *core.Ctx) {
 	if c.Replay != nil {
 		var w c02wit
@@ -277,6 +315,7 @@ func (m c02) Run(c *core.Ctx) {
 		fixed = append(fixed, &Program{Src: src, Tags: []string{"recursion-try-matrix"}})
 	}
 	fixed = append(fixed, c02destructMatrix()...)
+	fixed = append(fixed, c02staleSlotMatrix()...)
 	nMatrix := len(fixed)
 	for form := 0; form < 2; form++ {
 		for _, src := range gen.TailMixPrograms("", form) {
